@@ -1,5 +1,5 @@
 CONSTANTS
-  States = {"empty", "populated"}
+  States = {"populated", "long"}
   TxTos = {"absent", "zero", "self", "known", "stranger", "contract"}
   TxPayloads = {"empty", "garbage", "valid"}
   TxAmounts = {"nil", "zero", "pos"}
@@ -7,7 +7,7 @@ CONSTANTS
   MaxDev = 3
   Enumerate = TRUE
   Cmul = 64
-  Cadd = 67108864
+  Cadd = 16777216
   BoundedDecode = TRUE
   ExportOn = TRUE
 INIT Init
